@@ -53,6 +53,10 @@ type simSub struct {
 	created time.Duration
 	cancAt  time.Duration
 	canc    bool
+	lazy    bool // the consumer task starts only after the subscription was cancelled
+	bufCap  int
+	rawFrom, rawTo int // raw-trace marks of the subscription's lifetime
+	checkedCancel  bool
 }
 
 type simNode struct {
@@ -85,7 +89,12 @@ func genKey(r *prng, typ int) crypto.PrivKey {
 	var err error
 	switch typ {
 	case 1:
-		priv, _, err = crypto.GenerateSecp256k1Key(r)
+		// the library's generator deliberately consumes a random number of bytes; build the key
+		// from 32 seeded bytes instead
+		b := r.bytes(32)
+		b[0] &= 0x7f
+		b[31] |= 1
+		priv, err = crypto.UnmarshalSecp256k1PrivateKey(b)
 	default:
 		priv, _, err = crypto.GenerateEd25519Key(r)
 	}
@@ -263,6 +272,12 @@ func (n *simNode) topic(name string) (*Topic, error) {
 
 // subscribe (runs as a client task body): creates a subscription and a consumer task.
 func (n *simNode) subscribe(topic string, bufSize int) (*simSub, error) {
+	return n.subscribeMode(topic, bufSize, false)
+}
+
+func (ss *simSub) startConsumer() { go ss.consume() }
+
+func (n *simNode) subscribeMode(topic string, bufSize int, lazy bool) (*simSub, error) {
 	t, err := n.topic(topic)
 	if err != nil {
 		return nil, err
@@ -275,13 +290,18 @@ func (n *simNode) subscribe(topic string, bufSize int) (*simSub, error) {
 	if err != nil {
 		return nil, err
 	}
-	ss := &simSub{n: n, topic: topic, sub: sub, created: n.s.now()}
+	ss := &simSub{n: n, topic: topic, sub: sub, created: n.s.now(), lazy: lazy, bufCap: cap(sub.ch)}
+	n.mu.Lock()
+	ss.rawFrom = len(n.trace)
+	n.mu.Unlock()
 	ss.ctx, ss.cancel = context.WithCancel(context.Background())
 	n.mu.Lock()
 	ss.id = len(n.subs)
 	n.subs = append(n.subs, ss)
 	n.mu.Unlock()
-	go ss.consume()
+	if !lazy {
+		go ss.consume()
+	}
 	return ss, nil
 }
 
